@@ -14,6 +14,47 @@ Z3OLD = '/usr/bin/z3'
 CVC5 = '/usr/bin/cvc5'
 
 
+def consts_of(t, cache=None):
+    """names of the uninterpreted constants occurring in a term"""
+    out = set()
+    stack = [t]
+    seen = set()
+    while stack:
+        x = stack.pop()
+        i = x.get_id()
+        if i in seen:
+            continue
+        seen.add(i)
+        if z3.is_quantifier(x):
+            stack.append(x.body())
+            continue
+        if z3.is_app(x):
+            if x.num_args() == 0:
+                if x.decl().kind() == z3.Z3_OP_UNINTERPRETED:
+                    out.add(x.decl().name())
+            else:
+                stack.extend(x.children())
+    return out
+
+
+def slice_hyps(hyps, goal):
+    """cone of influence: the hypotheses connected to the goal through shared constants (dropping hypotheses is sound
+    for `unsat`; a `sat` on the slice is re-checked on the full set)"""
+    sym = [consts_of(h) for h in hyps]
+    rel = set(consts_of(goal))
+    keep = [False] * len(hyps)
+    changed = True
+    while changed:
+        changed = False
+        for i, c in enumerate(sym):
+            if not keep[i] and (c & rel or (not c and False)):
+                keep[i] = True
+                if not c <= rel:
+                    rel |= c
+                changed = True
+    return [h for h, k in zip(hyps, keep) if k]
+
+
 def smt2_of(hyps, goal, extra=()):
     s = z3.Solver()
     for h in hyps:
@@ -173,16 +214,38 @@ def race(names, path, timeout, seed, need):
     return verdict, attempts, agree
 
 
+_DEADLINE = [None]
+
+
 def discharge_one(args):
-    idx, text, workdir, portfolio, timeout, seed, need_all = args
+    idx, text, workdir, portfolio, timeout, seed, need_all, stext = args
+    if _DEADLINE[0] is not None and time.time() > _DEADLINE[0]:
+        return idx, 'unknown', [{'solver': 'none', 'result': 'time budget of the check exhausted', 'time_s': 0.0}], None
     path = os.path.join(workdir, 'o%05d.smt2' % idx)
     with open(path, 'w') as f:
         f.write(text)
     with open(path + '.cvc5', 'w') as f:
         f.write(cvc5_text(text))
-    # stage 1: the primary solver alone with a short budget (most obligations end here)
     first = portfolio[0]
-    v1, attempts, agree = race([first], path, min(3, timeout), seed, 1)
+    attempts = []
+    v1 = 'unknown'
+    agree = 0
+    if stext is not None:
+        # stage 0: the cone-of-influence slice (only an `unsat` of the slice is an answer)
+        spath = os.path.join(workdir, 'o%05d.slice.smt2' % idx)
+        with open(spath, 'w') as f:
+            f.write(stext)
+        with open(spath + '.cvc5', 'w') as f:
+            f.write(cvc5_text(stext))
+        v0, att0, agree0 = race([first, 'cvc5'] if first != 'cvc5' else [first, 'z3-new'], spath, min(4, timeout), seed, need_all)
+        for a in att0:
+            a['solver'] += '/slice'
+        attempts += att0
+        if v0 == 'unsat' and agree0 >= need_all:
+            return idx, 'unsat', attempts, None
+    # stage 1: the primary solver alone with a short budget (most obligations end here)
+    v1, att1, agree = race([first], path, min(3, timeout), seed, 1)
+    attempts += att1
     verdict = v1
     if verdict == 'unknown' or (verdict == 'unsat' and need_all > 1):
         rest = list(portfolio[1:]) + ([first] if verdict == 'unknown' else [])
@@ -195,7 +258,7 @@ def discharge_one(args):
             verdict = v2
     model = None
     if verdict == 'sat':
-        who = [a['solver'] for a in attempts if a['result'] == 'sat'][0]
+        who = [a['solver'] for a in attempts if a['result'] == 'sat' and '/' not in a['solver']][0]
         if who.startswith('cvc5'):
             with open(path + '.m.cvc5', 'w') as f:
                 f.write('(set-option :produce-models true)\n' + cvc5_text(text) + '\n(get-model)\n')
@@ -209,7 +272,7 @@ def discharge_one(args):
     return idx, verdict, attempts, model
 
 
-def discharge(obls, specs=None, ip=None, tier='quick', seed=0, timeout=None, jobs=16, portfolio=None, keep=None):
+def discharge(obls, specs=None, ip=None, tier='quick', seed=0, timeout=None, jobs=16, portfolio=None, keep=None, budget_s=None):
     """fills o.result = {'verdict': unsat|sat|unknown, 'attempts': [...], 'model': text|None} for every obligation"""
     timeout = timeout or (10 if tier == 'quick' else 60)
     need_all = 1 if tier == 'quick' else 2
@@ -228,10 +291,16 @@ def discharge(obls, specs=None, ip=None, tier='quick', seed=0, timeout=None, job
         if specs is not None and ip is not None:
             extra = specs.unfold(ip, list(o.hyps) + [goal], extra_fuel=o.extra.get('fuel', 0), opaque=o.extra.get('opaque', ()))
         hints = o.extra.get('hints', [])
-        text = smt2_of(o.hyps, goal, list(extra) + list(hints))
+        allh = list(o.hyps) + list(extra) + list(hints)
+        text = smt2_of(allh, goal)
         o.smt2 = text
+        sl = slice_hyps(allh, goal)
+        stext = smt2_of(sl, goal) if len(sl) < len(allh) else None
         pf = o.extra.get('portfolio', portfolio)
-        tasks.append((i, text, workdir, pf, o.extra.get('timeout', timeout), seed, need_all))
+        tasks.append((i, text, workdir, pf, o.extra.get('timeout', timeout), seed, need_all, stext))
+    _DEADLINE[0] = (time.time() + budget_s) if budget_s else None
+    # obligations that state the property itself first: a budget overrun then hits scaffolding last
+    tasks.sort(key=lambda t: (0 if obls[t[0]].top else 1, t[0]))
     if tasks:
         with concurrent.futures.ThreadPoolExecutor(max_workers=jobs) as ex:
             for idx, verdict, attempts, model in ex.map(discharge_one, tasks):
@@ -266,3 +335,49 @@ def parse_model(text):
                 s = re.sub(r'\\u\{([0-9a-fA-F]+)\}', lambda mm: chr(int(mm.group(1), 16)), s)
                 out[name] = s
     return out
+
+
+def unique_int_value(hyps, term, timeout=8, workdir=None, candidates=range(0, 9)):
+    """the value n among `candidates` such that hyps entail term == n, or None.  One `unsat` query per candidate
+    (hyps and term != n), all candidates raced; a wrong candidate is `sat`/unknown and simply loses the race."""
+    import tempfile
+    d = workdir or tempfile.mkdtemp(prefix='pyvc_c_')
+    os.makedirs(d, exist_ok=True)
+    procs = []
+    hyps = slice_hyps(list(hyps), term == 0)
+    for n in candidates:
+        s2 = z3.Solver()
+        for h in hyps:
+            s2.add(h)
+        s2.add(term != n)
+        text = s2.to_smt2()
+        path = os.path.join(d, 'cand%d.smt2' % n)
+        with open(path, 'w') as f:
+            f.write(text)
+        with open(path + '.cvc5', 'w') as f:
+            f.write(cvc5_text(text))
+        for solver in ('z3-new', 'cvc5'):
+            p = subprocess.Popen(solver_cmd(solver, path, timeout, 0), stdout=subprocess.PIPE, stderr=subprocess.STDOUT, text=True)
+            procs.append((n, solver, p))
+    t0 = time.time()
+    found = None
+    pending = list(procs)
+    while pending and found is None and time.time() - t0 < timeout + 3:
+        for item in list(pending):
+            n, solver, p = item
+            if p.poll() is not None:
+                pending.remove(item)
+                out = p.stdout.read()
+                if _verdict_of(out, p.returncode) == 'unsat':
+                    found = n
+                    break
+        time.sleep(0.01)
+    for n, solver, p in pending:
+        try:
+            p.kill()
+            p.wait(timeout=2)
+        except Exception:
+            pass
+    if workdir is None:
+        shutil.rmtree(d, ignore_errors=True)
+    return found
